@@ -46,9 +46,13 @@ FUEL = 300
 
 SCHEMA = {
     'classes': {'A': [('ID', 'unique_id', False), ('n', 'integer', False), ('s', 'string', False), ('b', 'boolean', False)],
-                'B': [('ID', 'unique_id', False), ('n', 'integer', False), ('s', 'string', False)]},
-    'order': ['A', 'B'], 'edges': [], 'assoc': False,
+                'B': [('ID', 'unique_id', False), ('A_ID', 'unique_id', True), ('n', 'integer', False), ('s', 'string', False)]},
+    'order': ['A', 'B'],
+    # R1: B (many, conditional) ---- A (one, conditional), formalised by B.A_ID -> A.ID.  Bodies navigate it; links are
+    # made and broken by the harness between invocations (`assoc` False: no relate statements inside the bodies)
+    'edges': [('A', 'B', 'R1', '', True), ('B', 'A', 'R1', '', False)], 'assoc': False,
 }
+ASSOC = ('R1', 'B', 'A_ID', 'A', 'ID')
 ENUMERATORS = ['red', 'green', 'blue', 'cyan', 'black']
 _CTX = None
 _xtuml = None
@@ -175,13 +179,13 @@ def gen_model(rng, max_levels, body_stmts):
         counter[0] += 1
         return '%s%d' % (stem, counter[0])
 
-    def make_body(sig, calls, rec, self_cls, pure, attr=None, chain=None):
+    def make_body(sig, calls, rec, self_cls, pure, attr=None, chain=None, nav=False):
         g = G.ProgGen(r.fork('body', sig['name']) if hasattr(r, 'fork') else r, max_stmts=r.randint(2, body_stmts),
                       max_depth=r.choice([1, 1, 2]), params=sig['params'], calls=calls, self_cls=self_cls,
                       derived=[d for d in derived if attr is None or d[1] != attr],
                       allow_delete=False, allow_mutation=not pure, enums=enums, consts=gen_consts, schema=SCHEMA,
                       ret_ty=sig['ret'], rec_call=rec, derived_attr=attr, create_in_loops=False,
-                      max_call_sites=r.choice([1, 2, 2, 3]), derived_chain=chain)
+                      max_call_sites=r.choice([1, 2, 2, 3]), derived_chain=chain, derived_nav=nav)
         prog = g.gen_program()
         return prog, G.render(prog, g.uppercase)
 
@@ -213,6 +217,10 @@ def gen_model(rng, max_levels, body_stmts):
             recursive = kind != 'derived' and (mutual or r.random() < 0.25)
             if recursive:
                 params.append(('cnt', 'integer'))
+            if kind != 'derived' and consts and r.random() < 0.2:
+                # a parameter named like a constant: the bare name still denotes the constant, `param.<name>` the argument
+                cn, ct, _ = r.choice(consts)
+                params.append((cn, ct))
             cls = r.choice(['A', 'B'])
             if kind == 'function':
                 sig = _sig('function', new_name('fn'), None, params, ret, pure)
@@ -250,8 +258,10 @@ def gen_model(rng, max_levels, body_stmts):
                     helper = 'get_' + sig['name']
                 chain = (sig['name'], helper)
                 sig['chain'] = True
+            if sig['kind'] == 'derived' and r.random() < 0.6:
+                sig['nav'] = True       # the derivation reads the related instance(s)
             if sig['kind'] == 'derived':
-                body, text = make_body(sig, avail, None, self_cls, True, attr=sig['name'], chain=chain)
+                body, text = make_body(sig, avail, None, self_cls, True, attr=sig['name'], chain=chain, nav=sig.get('nav', False))
             else:
                 body, text = make_body(sig, avail, rec, self_cls, sig['pure'])
             cost = 1 + body_cost(body, cost_of)
@@ -269,7 +279,7 @@ def gen_model(rng, max_levels, body_stmts):
                 sig['recursive'] = False
                 sig['params'] = [p for p in sig['params']]
                 if sig['kind'] == 'derived':
-                    body, text = make_body(sig, [], None, self_cls, True, attr=sig['name'], chain=chain)
+                    body, text = make_body(sig, [], None, self_cls, True, attr=sig['name'], chain=chain, nav=sig.get('nav', False))
                 else:
                     body, text = make_body(sig, [], None, self_cls, sig['pure'])
                 cost = (1 + body_cost(body, cost_of)) * (5 if chain is not None else 1)
@@ -294,7 +304,7 @@ def gen_model(rng, max_levels, body_stmts):
 def bp_spec(callables, enums, consts):
     classes = []
     for cls in SCHEMA['order']:
-        attrs = [(a, t) for a, t, ref in SCHEMA['classes'][cls]]
+        attrs = [(a, 'ref' if ref else t) for a, t, ref in SCHEMA['classes'][cls]]
         der = [(c['name'], c['ret'], c['text']) for c in callables if c['kind'] == 'derived' and c['ns'] == cls]
         ops = [(c['name'], c['kind'] == 'instop', c['ret'], [(n, t) for n, t in c['params']], c['text'])
                for c in callables if c['kind'] in ('classop', 'instop') and c['ns'] == cls]
@@ -302,7 +312,8 @@ def bp_spec(callables, enums, consts):
     functions = [(c['name'], c['ret'], [(n, t) for n, t in c['params']], c['text']) for c in callables if c['kind'] == 'function']
     bridges = [(c['name'], c['ret'], [(n, t) for n, t in c['params']], c['text']) for c in callables if c['kind'] == 'bridge']
     ees = [('EE1', bridges)] if bridges else []
-    return {'classes': classes, 'functions': functions, 'ees': ees, 'enums': enums, 'consts': consts}
+    return {'classes': classes, 'functions': functions, 'ees': ees, 'enums': enums, 'consts': consts,
+            'assocs': [(1, 'B', 'A_ID', True, True, 'A', 'ID', False, True)]}
 
 
 def gen_population(rng):
@@ -314,7 +325,7 @@ def gen_population(rng):
         for i in range(count):
             row = {}
             for a, t, ref in SCHEMA['classes'][cls]:
-                if a == 'ID':
+                if a == 'ID' or ref:
                     continue
                 if t == 'integer':
                     row[a] = rng.choice([0, 1, 2, 3, 5, -1, -4, 9])
@@ -326,6 +337,11 @@ def gen_population(rng):
                     row[a] = rng.random() < 0.5
             rows.append(row)
         pop['inst'][cls] = rows
+    # initial links across R1 (each B has at most one A), made with xtuml.relate in this order
+    na = len(pop['inst']['A'])
+    for bi in range(len(pop['inst']['B'])):
+        if na and rng.random() < 0.5:
+            pop['links'].append([bi, rng.randrange(na)])
     return pop
 
 
@@ -378,6 +394,42 @@ def gen_entries(rng, callables, enums, consts, pop):
             if r.random() < 0.5:
                 entries.append(['set', c['ns'], idx, 's', r.choice(['q', 'zz', ''])])
             entries.append(['dattr', c['ns'], idx, c['name']])
+    # derived attributes that navigate: read, then change the LINK STORE or the partner's attribute, read again
+    link = {bi: ai for bi, ai in pop.get('links', [])}
+    na, nb = len(pop['inst']['A']), len(pop['inst']['B'])
+    for c in callables:
+        if c['kind'] != 'derived' or not c.get('nav') or not pop['inst'][c['ns']] or not (na and nb):
+            continue
+        for _ in range(r.randint(1, 3)):
+            idx = r.randrange(len(pop['inst'][c['ns']]))
+            entries.append(['dattr', c['ns'], idx, c['name']])
+            k = r.random()
+            # the B instance whose link / partner we touch: the receiver itself (class B) or one of its partners (class A)
+            if c['ns'] == 'B':
+                bi = idx
+            else:
+                mine = [b for b, a in link.items() if a == idx]
+                bi = r.choice(mine) if mine and r.random() < 0.6 else r.randrange(nb)
+            if k < 0.4:
+                if bi in link:
+                    entries.append(['unrelate', 'B', bi, 'A', link.pop(bi)])
+                else:
+                    ai = idx if c['ns'] == 'A' and r.random() < 0.7 else r.randrange(na)
+                    entries.append(['relate', 'B', bi, 'A', ai])
+                    link[bi] = ai
+            elif k < 0.6 and bi in link:
+                old = link.pop(bi)
+                entries.append(['unrelate', 'A', old, 'B', bi])
+                ai = r.randrange(na)
+                entries.append(['relate', 'A', ai, 'B', bi])
+                link[bi] = ai
+            else:
+                # assignment to the partner (or to whoever): the next read must see it
+                if c['ns'] == 'B' and bi in link:
+                    entries.append(['set', 'A', link[bi], 'n', r.choice([13, -8, 40])])
+                else:
+                    entries.append(['set', 'B', bi, 'n', r.choice([13, -8, 40])])
+            entries.append(['dattr', c['ns'], idx, c['name']])
     return entries
 
 
@@ -404,11 +456,13 @@ def _entry_sexp(e):
     if k == 'set':
         v = e[4]
         return [Sym('set'), [Sym('i'), e[1], e[2]], e[3], (Sym('T') if v is True else Sym('F') if v is False else v)]
+    if k in ('relate', 'unrelate'):
+        return [Sym(k), [Sym('i'), e[1], e[2]], [Sym('i'), e[3], e[4]], 'R1', '']
     return [Sym('const'), e[1]]
 
 
 def _ctx_sexp(callables):
-    classes = [[Sym('cls'), name] + [[a, Sym(t), Sym('F')] for a, t, ref in SCHEMA['classes'][name]]
+    classes = [[Sym('cls'), name] + [[a, Sym(t), Sym('T') if ref else Sym('F')] for a, t, ref in SCHEMA['classes'][name]]
                for name in SCHEMA['order']]
     cs = []
     tag = {'function': 'function', 'bridge': 'bridge', 'classop': 'classop', 'instop': 'instop', 'derived': 'derived'}
@@ -418,7 +472,8 @@ def _ctx_sexp(callables):
             cs.append([Sym('function'), c['name'], tree])
         else:
             cs.append([Sym(tag[c['kind']]), c['ns'], c['name'], tree])
-    return [Sym('ctx'), [Sym('classes')] + classes, [Sym('assocs')], [Sym('callables')] + cs]
+    assocs = [[Sym('assoc'), 'R1', 'B', 'A', '', '', Sym('T'), Sym('F'), ['A_ID'], ['ID']]]
+    return [Sym('ctx'), [Sym('classes')] + classes, [Sym('assocs')] + assocs, [Sym('callables')] + cs]
 
 
 def _state_sexp(pop):
@@ -430,6 +485,8 @@ def _state_sexp(pop):
         for i, row in enumerate(rows):
             vals = []
             for a, t, ref in SCHEMA['classes'][cls]:
+                if ref:
+                    continue
                 if a == 'ID':
                     vals.append(next_id)
                     next_id += 1
@@ -438,7 +495,8 @@ def _state_sexp(pop):
                     vals.append(Sym('T') if v is True else Sym('F') if v is False else v)
             insts.append([i] + vals)
         popsec.append([cls, len(rows)] + insts)
-    return [Sym('state'), [Sym('nextId'), next_id], popsec, [Sym('links')]]
+    links = [[0] + [['B', bi, 'A', ai] for bi, ai in pop.get('links', [])]]
+    return [Sym('state'), [Sym('nextId'), next_id], popsec, [Sym('links')] + links]
 
 
 def _rows_in_text_order(sql, enums, consts):
@@ -483,7 +541,15 @@ def canon_spec(ans):
         for r, row in enumerate(entry[2:]):
             rank[(entry[0], row[0])] = r
     pop = [[entry[0], [[P4._spec_val(v, rank) for v in row[1:]] for row in entry[2:]]] for entry in secs['pop']]
-    return ['ok', [P4._spec_val(v, rank) for v in vals], secs['nextId'][0], pop]
+    live = {entry[0]: [row[0] for row in entry[2:]] for entry in secs['pop']}
+    links = []
+    for entry in secs['links']:
+        pairs = entry[1:]
+        sc, tc = ASSOC[1], ASSOC[3]
+        links.append([entry[0],
+                      [[rank.get((p[2], p[3]), 'dead') for p in pairs if p[0] == sc and p[1] == i] for i in live[sc]],
+                      [[rank.get((p[0], p[1]), 'dead') for p in pairs if p[2] == tc and p[3] == i] for i in live[tc]]])
+    return ['ok', [P4._spec_val(v, rank) for v in vals], secs['nextId'][0], pop, links]
 
 
 def attach_expectations(ctx, cases):
@@ -531,7 +597,7 @@ def add_shadow(rng, callables):
 
 
 def generate(ctx):
-    n = ctx.pick(900, 15000)
+    n = ctx.pick(800, 15000)
     max_levels = ctx.pick(4, 5)
     body_stmts = ctx.pick(7, 12)
     batch = []
@@ -576,12 +642,18 @@ def canon_impl(domain, values):
         rows = []
         for rank, inst in enumerate(mc.storage):
             names[id(inst)] = ['i', cls, rank]
-            rows.append([P4.cval(inst.__dict__.get(a), lambda x: ['i?']) for a, t, ref in SCHEMA['classes'][cls]])
+            rows.append([P4.cval(inst.__dict__.get(a), lambda x: ['i?']) for a, t, ref in SCHEMA['classes'][cls] if not ref])
         pop.append([cls, rows])
 
     def name_of(inst):
         return names.get(id(inst)) or ['i', type(inst).__name__, 'dead']
-    return ['ok', [P4.cval(v, name_of) for v in values], domain.id_generator.peek(), pop]
+    links = []
+    for k, ass in enumerate(domain.associations):
+        sc = ass.target_link.from_metaclass
+        tc = ass.source_link.from_metaclass
+        links.append([k, [[name_of(t)[2] for t in ass.target_link.get(x, [])] for x in sc.storage],
+                      [[name_of(x)[2] for x in ass.source_link.get(t, [])] for t in tc.storage]])
+    return ['ok', [P4.cval(v, name_of) for v in values], domain.id_generator.peek(), pop, links]
 
 
 def run_impl(case):
@@ -597,6 +669,8 @@ def run_impl(case):
     insts = {}
     for cls in SCHEMA['order']:
         insts[cls] = [domain.new(cls, **row) for row in case['pop']['inst'][cls]]
+    for bi, ai in case['pop'].get('links', []):
+        _xtuml.relate(insts['B'][bi], insts['A'][ai], 1)
     calls = {'n': 0, 'depth': 0, 'max': 0, 'kinds': {}}
     _CALLS = calls
     values = []
@@ -656,6 +730,12 @@ def _invoke(domain, insts, e):
     if k == 'set':
         setattr(insts[e[1]][e[2]], e[3], e[4])
         return None
+    if k == 'relate':
+        _xtuml.relate(insts[e[1]][e[2]], insts[e[3]][e[4]], 1)
+        return None
+    if k == 'unrelate':
+        _xtuml.unrelate(insts[e[1]][e[2]], insts[e[3]][e[4]], 1)
+        return None
     if k == 'enum':
         return getattr(domain.find_symbol(e[1]), e[2])
     return domain.find_symbol(e[1])
@@ -676,11 +756,14 @@ def _judge(case, obs, calls, raised):
                 if a != b:
                     e = case['entries'][k]
                     comp = 'value:' + {'fn': 'function', 'brg': 'bridge', 'cop': 'class-operation', 'iop': 'instance-operation',
-                                       'dattr': 'derived-attribute', 'enum': 'enumerator', 'const': 'constant', 'set': 'attribute-write'}[e[0]]
+                                       'dattr': 'derived-attribute', 'enum': 'enumerator', 'const': 'constant', 'set': 'attribute-write',
+                                       'relate': 'relate', 'unrelate': 'unrelate'}[e[0]]
                     what = 'invocation #%d %r delivered %r, the bodies specify %r' % (k, e, a, b)
                     break
         elif obs[3] != exp[3]:
             comp, what = 'population', 'final population %r, the bodies specify %r' % (obs[3], exp[3])
+        elif len(obs) > 4 and len(exp) > 4 and obs[4] != exp[4]:
+            comp, what = 'links', 'final links %r, expected %r' % (obs[4], exp[4])
         elif obs[2] != exp[2]:
             comp, what = 'id-generator', 'next id %r, expected %r' % (obs[2], exp[2])
         text = '\n'.join('--- %s %s%s(%s) -> %s%s\n%s' % (c['kind'], (c['ns'] + '::') if c['ns'] else '', c['name'],
@@ -749,7 +832,8 @@ def shrink_candidates(case):
     # smaller populations
     for cls in SCHEMA['order']:
         rows = case['pop']['inst'][cls]
-        if rows and not any(e[0] in ('iop', 'dattr', 'set') and e[1] == cls and e[2] == len(rows) - 1 for e in entries):
+        if rows and not any(e[0] in ('iop', 'dattr', 'set') and e[1] == cls and e[2] == len(rows) - 1 for e in entries) \
+                and not case['pop'].get('links') and not any(e[0] in ('relate', 'unrelate') for e in entries):
             pop = {'inst': dict(case['pop']['inst']), 'links': []}
             pop['inst'][cls] = rows[:-1]
             cases.append(make_case(case.get('id'), callables, case['enums'], case['consts'], pop, entries, case['shuffle']))
